@@ -383,6 +383,7 @@ class Namespace:
         self.name = name
         self.context = context
         self.inherits = inherits
+        self._templateuri = calling_uri
         if callables is not None:
             self.callables = {c.__name__: c for c in callables}
 
@@ -656,6 +657,7 @@ class ModuleNamespace(Namespace):
         self.name = name
         self.context = context
         self.inherits = inherits
+        self._templateuri = calling_uri
         if callables is not None:
             self.callables = {c.__name__: c for c in callables}
 
